@@ -249,13 +249,35 @@ const EDGE_TEXTS: &[&str] = &[
     "make c get command(\"/nonexistent/program\")\nmake r get c.run()\nshout(\"not reached\")",
 ];
 
+/// Rejected texts with a chosen number of error diagnostics (the exit status must be non-zero
+/// whatever the count is: 255, 256, 257, 512 wrap around a byte).
+fn many_errors(idx: u64) -> Option<String> {
+    let base = EDGE_TEXTS.len() as u64;
+    let counts = [255u64, 256, 257, 512, 65536];
+    let k = idx.checked_sub(base)?;
+    let n = *counts.get((k / 2) as usize)?;
+    let mut s = String::new();
+    if k % 2 == 0 {
+        // semantic errors: undeclared variables
+        for i in 0..n {
+            s.push_str(&format!("shout(zz_v{i})\n"));
+        }
+    } else {
+        // lexical errors: unexpected characters
+        for _ in 0..n {
+            s.push_str("@\n");
+        }
+    }
+    Some(s)
+}
+
 fn stage_cli(ctx: &mut Ctx) {
     let naija = ctx.opt("naija").expect("--naija").to_string();
     let scratch = ctx.opt("scratch").expect("--scratch").to_string();
     for idx in ctx.indices() {
         ctx.out.begin(idx);
         let mut rng = Rng::new(util::case_seed(ctx.seed, "ship", idx));
-        let edge = EDGE_TEXTS.get(idx as usize).map(|t| (t.to_string(), false));
+        let edge = EDGE_TEXTS.get(idx as usize).map(|t| (t.to_string(), false)).or_else(|| many_errors(idx).map(|t| (t, false)));
         let Some((src, deep)) = edge.clone().or_else(|| program(&mut rng, idx, true)) else {
             ctx.out.discarded += 1;
             continue;
@@ -303,6 +325,11 @@ fn stage_cli(ctx: &mut Ctx) {
         ];
         if !cuts.is_empty() {
             modes.push(("stdin-in-bursts", vec!["-"], Some(src.as_str()), "<stdin>"));
+        }
+        if src.len() > 120_000 {
+            // one argument may not exceed 128 KiB on Linux
+            modes.retain(|m| m.0 != "eval");
+            ctx.out.tag("eval-skipped.argument-too-long");
         }
         let mut all_ok = true;
         for (mode, args, stdin, fname) in modes {
